@@ -190,7 +190,7 @@ func (g *G) GenCall(p *Profile, rules []*RuleDef, idx int) *Call {
 			w := g.Range(0, 4)
 			var layer []string
 			for j := 0; j < w; j++ {
-				if g.Pct(p.UnknownNamePct / 2) {
+				if n == 0 || g.Pct(p.UnknownNamePct/2) {
 					layer = append(layer, strconv.Itoa(90+j))
 				} else {
 					layer = append(layer, strconv.Itoa(rules[g.Intn(n)].ID))
